@@ -19,7 +19,7 @@ func (it InlineTableMap) Set(ctx context.Context, scope *ReferenceScope, inlineT
 		scope.RecursiveTable = &inlineTable
 	}
 
-	view, err := Select(ctx, scope, inlineTable.Query)
+	view, err := selectQuery(ctx, scope, inlineTable.Query, inlineTable.IsRecursive())
 	scope.CloseCurrentNode()
 	if err != nil {
 		return err
